@@ -178,7 +178,9 @@ IsPrefixSeq(s, t) == Len(s) <= Len(t) /\ \A i \in DOMAIN s : s[i] = t[i]
 
 \* a frame whose declared compression agrees with its real byte form
 FormAgrees(f, enc) ==
-    \/ f.actual = 0
+    \* (an empty un-enveloped body under a Content-Encoding is accepted everywhere as the empty message; an
+    \*  envelope whose compressed flag is set over zero bytes is not a stream of the declared compression)
+    \/ f.actual = 0 /\ f.flags = -1
     \/ f.id = -3                       \* incomplete payload: form cannot be sniffed
     \/ (f.declz /\ f.form = enc)
     \/ (~f.declz /\ f.form = "raw")
